@@ -1,7 +1,7 @@
 //! C07 — DTLS record / handshake byte decoders (src/transports/dtls/{record,handshake}.rs).
-//! The record walk and handshake-message walk replicate the 6-line loops of `handle_incoming_packet` /
-//! `process_handshake_payload` around the REAL decode functions (the loops themselves are private and async);
-//! the extension walks are private inline code and are exercised by the live-endpoint exploration only.
+//! The record loop of `handle_incoming_packet` and the message loop of `process_handshake_payload` are compared through
+//! the REAL run loop (stream `dtlsctx` in dtlslive.rs, hook-published context); the extension walks are private inline
+//! code and are exercised by the live-endpoint exploration only.
 use super::Target;
 use crate::Rng;
 use bytes::{Bytes, BytesMut};
@@ -29,30 +29,6 @@ fn call_hs(b: &[u8]) -> String {
     let mut buf = Bytes::copy_from_slice(b);
     super::start_alloc(); let r = HandshakeMessage::decode(&mut buf); super::mark_alloc();
     match r { Ok(None) => "ok ".into(), Ok(Some(r)) => format!("ok {}", nats(&hs_digest(&r))), Err(e) => et(&e) }
-}
-fn call_record_walk(b: &[u8]) -> String {
-    let mut data = Bytes::copy_from_slice(b);
-    let mut out = vec![];
-    while !data.is_empty() {
-        match DtlsRecord::decode(&mut data) {
-            Ok(None) => break,
-            Ok(Some(r)) => out.push(nats(&rec_digest(&r))),
-            Err(_) => data = Bytes::new(),
-        }
-    }
-    format!("ok {};{}", out.len(), out.join(";"))
-}
-fn call_hs_walk(b: &[u8]) -> String {
-    let mut body = Bytes::copy_from_slice(b);
-    let mut out = vec![];
-    while !body.is_empty() {
-        match HandshakeMessage::decode(&mut body) {
-            Ok(None) => break,
-            Ok(Some(m)) => out.push(nats(&hs_digest(&m))),
-            Err(_) => break,
-        }
-    }
-    format!("ok {};{}", out.len(), out.join(";"))
 }
 fn call_client_hello(b: &[u8]) -> String {
     let mut buf = Bytes::copy_from_slice(b);
@@ -231,8 +207,6 @@ pub fn targets() -> Vec<Target> {
     vec![
         Target { stream: "dtlsrec", entry: "DtlsRecord::decode", call: call_record, valid: gen_records, alloc: Some((0, 0)), weight: 2 },
         Target { stream: "dtlshs", entry: "HandshakeMessage::decode", call: call_hs, valid: gen_handshake_msgs, alloc: Some((0, 0)), weight: 2 },
-        Target { stream: "dtlsrecwalk", entry: "DtlsRecord::decode(walk)", call: call_record_walk, valid: gen_records, alloc: None, weight: 1 },
-        Target { stream: "dtlshswalk", entry: "HandshakeMessage::decode(walk)", call: call_hs_walk, valid: gen_handshake_msgs, alloc: None, weight: 1 },
         Target { stream: "chello", entry: "ClientHello::decode", call: call_client_hello, valid: gen_client_hello, alloc: Some((1, 0)), weight: 3 },
         Target { stream: "shello", entry: "ServerHello::decode", call: call_server_hello, valid: gen_server_hello, alloc: Some((1, 0)), weight: 2 },
         Target { stream: "hvr", entry: "HelloVerifyRequest::decode", call: call_hvr, valid: gen_hvr, alloc: Some((1, 0)), weight: 1 },
